@@ -220,6 +220,7 @@ func (w *c19TrWorld) runOp(g, o int, op c19TrOp) c19TrRes {
 		w.tripper.transportsMutex.Unlock()
 	}
 	r.op = op
+	c19Beat()
 	return r
 }
 
@@ -332,14 +333,9 @@ func c19TrRun(out *c19Out, raw []byte) {
 				}
 			})
 		}
+		c19Beat()
 		close(barrier)
-		done := make(chan struct{})
-		go func() { wg.Wait(); close(done) }()
-		select {
-		case <-done:
-		case <-time.After(4 * c19StepTimeout):
-			(&c19Sched{out: out}).hang()
-		}
+		wg.Wait() // a goroutine that never comes back is reported by the child's watchdog
 		for g := range results {
 			for o, r := range results[g] {
 				if r.op.Kind == "rt" {
